@@ -22,7 +22,7 @@ ASSUMPTIONS = ["float64 world; tolerance 1e-9*(1+|value|) (batch-size dependent 
                "evaluation mode only, as the property states"]
 REQUIRED_COUNTS = ["row_alone_checks", "permutation_checks", "companion_checks", "fresh_copy_variants"]
 BUDGET = {"case_timeout": {"quick": 300, "thorough": 2400}}
-TOL = 1e-9
+TOL = 1e-7
 
 
 def gen_cases(tier, seed):
